@@ -64,6 +64,7 @@ def execute(scn, keep_log=False, hook=None):
     xport = bus.port('X')
     own_name = cfg['name']
     last_announced = [None]
+    lost = {}           # address -> time a lower-NAME claim for it was delivered to the stack
     tp_pfs = (rc.PF_TP_CM, rc.PF_TP_DT, rc.PF_FD_TP_CM, rc.PF_FD_TP_DT)
 
     txn = [0]
@@ -90,6 +91,12 @@ def execute(scn, keep_log=False, hook=None):
             return
         stats['frames_judged'] += 1
         state, held = ca.state, ca.device_address
+        # independent of what the CA believes: an address taken by a contender with a lower NAME is lost for good
+        if i.sa in lost and i.pf not in tp_pfs:
+            viol.append({'clause': 'frame-from-lost-address', 'rank': 1,
+                         'msg': 'frame %08X sent from address %d, which a contender with a lower NAME claimed %.1f ms earlier (CA is %s and believes it holds %s)' % (
+                             fr.can_id, i.sa, (sim.now - lost[i.sa]) / 1e6, STATE.get(state), held)})
+            return
         if i.sa == 254:
             if i.pf == rc.PF_REQUEST and len(fr.data) >= 3 and rc.le24(fr.data, 0) == 0xEE00:
                 stats['claim_requests_from_254'] += 1
@@ -117,14 +124,18 @@ def execute(scn, keep_log=False, hook=None):
     for e in scn['contender']:
         def contend(e=e):
             adr = last_announced[0]
+            if adr is None and cfg['bypass']:
+                adr = cfg['addr']       # a CA started with claiming bypassed holds its address without ever announcing it
             if adr is None:
                 return
             nv = (own_name - 1 - (own_name >> 2)) if e['lower'] else min(own_name + 12345, (1 << 64) - 1)
             nv &= ~(1 << 48)
             if nv == own_name:
                 nv ^= 1
-            before = (ca.state, ca.device_address)
             bus.send('X', rc.make_id(6, 0, rc.PF_ADDRESS_CLAIM, 255, adr), True, nv.to_bytes(8, 'little'))
+            if e['lower']:
+                lat_ns = 0 if scn['latency']['kind'] == 'zero' else scn['latency']['ns']
+                sim.after(lat_ns + 1, (lambda adr=adr: lost.setdefault(adr, sim.now)), 'op')
         sim.at(base + e['at_ms'] * 1_000_000, contend, 'op')
 
     dm22 = j.Dm22(ca)
